@@ -44,7 +44,7 @@ fn maxabs(v: &[f64]) -> f64 { v.iter().fold(0.0f64, |a, x| a.max(x.abs())) }
 
 struct Ops13 {
     wx: Vec<f64>, winvx: Vec<f64>, hs: Vec<f64>, hsx: Vec<f64>, aff: Vec<f64>, off: Vec<f64>, shift: Vec<f64>,
-    circ: Vec<f64>, icirc: Vec<f64>, wwinvx: Vec<f64>, winvwx: Vec<f64>, w1x: Vec<f64>, wty: Vec<f64>,
+    circ: Vec<f64>, icirc: Vec<f64>, wwinvx: Vec<f64>, winvwx: Vec<f64>, w1x: Vec<f64>, wty: Vec<f64>, winv1x: Vec<f64>,
 }
 /// drives every scaling-related entry point of a symmetric cone whose scaling was just updated
 fn drive<C: Cone<f64> + SymmetricCone<f64> + JordanAlgebra<f64>>(c: &mut C, z: &[f64], x: &[f64], y: &[f64], a: f64, b: f64, sigmamu: f64, hslen: usize, with_inv_circ: bool) -> Ops13 {
@@ -80,7 +80,8 @@ fn drive<C: Cone<f64> + SymmetricCone<f64> + JordanAlgebra<f64>>(c: &mut C, z: &
     vh::mul_Winv(c, false, &mut winvwx, &w1x, 1.0, 0.0);
     let mut wty = garbage(n);
     vh::mul_W(c, true, &mut wty, y, 1.0, 0.0);
-    Ops13 { wx, winvx, hs, hsx, aff, off, shift, circ, icirc, wwinvx, winvwx, w1x, wty }
+    let winv1x = t1.clone();
+    Ops13 { wx, winvx, hs, hsx, aff, off, shift, circ, icirc, wwinvx, winvwx, w1x, wty, winv1x }
 }
 
 fn nn_case(g: &mut Gen, s: &[f64], z: &[f64], x: &[f64], y: &[f64], a: f64, b: f64, sigmamu: f64, tag: &str) {
@@ -148,8 +149,11 @@ fn soc_case(g: &mut Gen, s: &[f64], z: &[f64], x: &[f64], y: &[f64], a: f64, b: 
             } else {
                 format!("p_hs_dense (-36) {} {} {}", cdylist(&o.hs), cdylist(x), cdylist(&o.hsx))
             };
-            let ex = format!("p_soc_nt ({}) {} {} {} {} {}; {}; p_inverse ({}) {} {} {} {}; p_transpose ({}) {} {} {} {}",
-                tolp(dist), cdylist(s), cdylist(z), cdylist(&w), cdylist(&lam), cdy(eta), hs_chk,
+            let pops = format!("p_soc_ops ({}) {} {} {} {} {} {} {} {} {} (mkSOCOut {} {} {} {} {} {} {} {} {} {})", tolinv(dist), cdylist(&w), cdylist(&lam), cdy(eta),
+                cdylist(x), cdylist(y), cdylist(z), cdy(a), cdy(b), cdy(sigmamu),
+                cdylist(&o.w1x), cdylist(&o.winv1x), cdylist(&o.hsx), cdylist(&o.wx), cdylist(&o.winvx), cdylist(&o.aff), cdylist(&o.circ), cdylist(&o.icirc), cdylist(&o.shift), cdylist(&o.off));
+            let ex = format!("{}; p_soc_nt ({}) {} {} {} {} {}; {}; p_inverse ({}) {} {} {} {}; p_transpose ({}) {} {} {} {}",
+                pops, tolp(dist), cdylist(s), cdylist(z), cdylist(&w), cdylist(&lam), cdy(eta), hs_chk,
                 tolinv(dist), cdy(maxabs(x)), cdylist(x), cdylist(&o.wwinvx), cdylist(&o.winvwx),
                 tolinv(dist), cdylist(&o.w1x), cdylist(y), cdylist(x), cdylist(&o.wty));
             (obs, ex)
@@ -456,12 +460,12 @@ fn probe_cases(g: &mut Gen, thorough: bool) {
                     let mut c = vh::SecondOrderCone::<f64>::new(n);
                     if !c.update_scaling(&s, &z, 1.0, ScalingStrategy::PrimalDual) { return None; }
                     let (wl, el, xl) = (cfllist(&c.w), cfl(c.η), cfllist(&x));
-                    let mut parts = ab_conjuncts(&mut c, &x, false, &|inv, a, b, yin, y| Some(format!("cmpv (0x1p-40)%float ({} F {} {} {} {} {} {}) {}",
+                    let mut parts = ab_conjuncts(&mut c, &x, false, &|inv, a, b, yin, y| Some(format!("info (cmpv (0x1p-40)%float ({} F {} {} {} {} {} {}) {})",
                         if inv { "soc_mul_Winv" } else { "soc_mul_W" }, wl, el, xl, cfl(a), cfl(b), cfllist(yin), cfllist(y))))?;
                     // the same probes after an identity reset
                     c.set_identity_scaling();
                     let (wl, el) = (cfllist(&c.w), cfl(c.η));
-                    parts.extend(ab_conjuncts(&mut c, &x, false, &|inv, a, b, yin, y| Some(format!("cmpv (0x1p-40)%float ({} F {} {} {} {} {} {}) {}",
+                    parts.extend(ab_conjuncts(&mut c, &x, false, &|inv, a, b, yin, y| Some(format!("info (cmpv (0x1p-40)%float ({} F {} {} {} {} {} {}) {})",
                         if inv { "soc_mul_Winv" } else { "soc_mul_W" }, wl, el, xl, cfl(a), cfl(b), cfllist(yin), cfllist(y))))?);
                     Some(parts)
                 });
